@@ -528,9 +528,14 @@ func c18_inlineHelpers(f *ast.File, keep map[string]bool) {
 
 // the normalisation applied to react.go before translation
 func c18_normaliseReact(f *ast.File) {
-	c18_desugarSwitches(f)
-	c18_inlineHelpers(f, map[string]bool{
+	keep := map[string]bool{
 		"NewAgent": true, "buildReturnDirectly": true, "firstChunkStreamToolCallChecker": true,
 		"getReturnDirectlyToolCallIndex": true, "genToolInfos": true,
-	})
+	}
+	// closures lifted out of the graph-building functions are put back (c18_react_unlift.go)
+	c18_unliftValues(f, []string{"NewAgent", "buildReturnDirectly"}, keep)
+	c18_inlineTailCalls(f, keep)
+	c18_inlineBranchLocals(f)
+	c18_desugarSwitches(f)
+	c18_inlineHelpers(f, keep)
 }
